@@ -56,6 +56,9 @@ def run(chk):
     rd = tlc.new_rundir("C04")
     try:
         progcheck.run_plans(chk, rd, plans(chk.tier), OBS, opts={"no_compute": True}, selftest=_corrupt)
+        from ..modelcheck import add_models
+
+        add_models(chk, ['TaskGraph:pure', 'TaskGraph:impure-mutant'])
         chk.cov["exhaustive"] = True
         chk.cov["rule"] = ("every collection of every enumerated behaviour of ArrayProgram.tla (corpora in parts; the deep corpora are "
                            "exhaustive over the lean parameter domains, strided deterministically in the quick tier) x chunk-grid "
